@@ -244,6 +244,21 @@ impl Element {
     }
 }
 
+// Verification hook (guard: --cfg decaf377_verif). Additive only: exposes the exact internal
+// representative so an external explorer can snapshot / rebuild states.
+#[cfg(decaf377_verif)]
+impl Element {
+    /// (X, Y, Z, T) of the internal extended-coordinates point.
+    pub fn verif_coords(&self) -> [Fq; 4] {
+        [self.x, self.y, self.z, self.t]
+    }
+
+    /// Rebuild an element from raw extended coordinates without any check.
+    pub fn verif_from_coords_unchecked(x: Fq, y: Fq, z: Fq, t: Fq) -> Self {
+        Element { x, y, z, t }
+    }
+}
+
 impl Encoding {
     pub fn vartime_decompress(&self) -> Result<Element, EncodingError> {
         // Top three bits of last byte must be zero
